@@ -80,6 +80,7 @@ class HostWorld:
         app.connection_lost = lambda exc: self.log.append("APPLOST")
         app.get_sequence = lambda: 1
         self.api.set_application(app)
+        self.app = app
         self.tasks = {}
         self.results = {}
 
@@ -206,6 +207,9 @@ class HostWorld:
                 self.log.append("RECONNECT-FAILED")
             elif tk.exception() is not None:
                 self.log.append("RECONNECT-FAILED:" + type(tk.exception()).__name__)
+            elif priv.get(self.api, "api", "app") is None:
+                # the owning application attaches itself again (a plain close() had detached it)
+                self.api.set_application(self.app)
 
     def now_ms(self):
         return int(round(self.loop.time() * 1000))
